@@ -80,6 +80,16 @@ CLAIMED = {
             '(conclusion, hypotheses/gaps among the merged equations).',
             'Trusted: naive closure (complete for ground EUF on the finite universe), kernel checker. No state merging.',
             'DESIGN.md §3 C17'),
+    'C16': ('exploration',
+            'bounded exhaustive enumeration of small linear systems on the real Omega test and simplex, witness/box/Fourier-Motzkin oracle',
+            'Every system of <=3 rows over 2 variables and <=2 rows over 3 variables with small integer entries (zero rows, duplicates, '
+            'equalities as pairs, unbounded directions, rows with a common factor) is given to omega.solve_matrix and, in both '
+            'orientations, to simplex.Simplex; SAT answers are judged by evaluating the witness, contradictions by exhaustive '
+            'search in a box (integers) resp. exact Fourier-Motzkin (rationals); contradictions of <=2-row systems are also '
+            'produced through OmegaHOL and the proof is checked by the kernel (conclusion false, hypotheses among the constraints).',
+            'Trusted: direct evaluation, box search, FM elimination, kernel checker. Exceptions/NOCONCL are "no verdict". '
+            'simplex_strict, branch-and-bound and the simplex HOL wrappers are not driven.',
+            'DESIGN.md §3 C16'),
 }
 
 PENDING_REASON = 'check not built yet in this round (planned, see DESIGN.md §3/§7); not claimed until its machinery exists'
